@@ -285,8 +285,8 @@ func c26Judge(a *repokit.Audit, lins []*c26Lin, before map[restic.ID]bool, step 
 		}
 		return 0, ""
 	}
-	succ := func(l *c26Lin, f restic.ID) bool {
-		if rel, _ := related(l, f); !rel {
+	succ := func(l *c26Lin, f restic.ID, allowInter bool) bool {
+		if rel, inter := related(l, f); !rel || (inter && !allowInter) {
 			return false
 		}
 		st, _ := treeOf(l, f)
@@ -295,14 +295,14 @@ func c26Judge(a *repokit.Audit, lins []*c26Lin, before map[restic.ID]bool, step 
 
 	// injective assignment of absent lineages to new files (augmenting paths; sizes are tiny)
 	owner := map[restic.ID]int{} // new file -> lineage index
-	var try func(li int, seen map[restic.ID]bool) bool
-	try = func(li int, seen map[restic.ID]bool) bool {
+	var try func(li int, seen map[restic.ID]bool, allowInter bool) bool
+	try = func(li int, seen map[restic.ID]bool, allowInter bool) bool {
 		for _, f := range newFiles {
-			if seen[f] || !succ(lins[li], f) {
+			if seen[f] || !succ(lins[li], f, allowInter) {
 				continue
 			}
 			seen[f] = true
-			if prev, taken := owner[f]; !taken || try(prev, seen) {
+			if prev, taken := owner[f]; !taken || try(prev, seen, allowInter) {
 				owner[f] = li
 				return true
 			}
@@ -310,14 +310,28 @@ func c26Judge(a *repokit.Audit, lins []*c26Lin, before map[restic.ID]bool, step 
 		return false
 	}
 	explained := map[restic.ID]bool{}
-	for li, l := range lins {
+	absent := func(l *c26Lin) bool {
 		if si := a.Snaps[l.ID]; si != nil && si.Err == nil {
-			continue // its own file is there
+			return false // its own file is there
 		}
 		if step.Cmd == "repair" && l.RootLost {
-			continue // not demanded: snapshots with an unreadable root tree are removed on purpose
+			return false // not demanded: snapshots with an unreadable root tree are removed on purpose
 		}
-		if try(li, map[restic.ID]bool{}) {
+		return true
+	}
+	// first pass: successors naming the first id of the chain; second pass: also the intermediate id
+	// (reported separately as original-not-first-id-*, not as a lost snapshot)
+	matched := map[int]bool{}
+	for li, l := range lins {
+		if absent(l) && try(li, map[restic.ID]bool{}, false) {
+			matched[li] = true
+		}
+	}
+	for li, l := range lins {
+		if !absent(l) || matched[li] {
+			continue
+		}
+		if try(li, map[restic.ID]bool{}, true) {
 			continue
 		}
 		var whys []string
@@ -351,10 +365,11 @@ func c26Judge(a *repokit.Audit, lins []*c26Lin, before map[restic.ID]bool, step 
 		}
 		li, ok := owner[f]
 		if !ok {
-			for i, l := range lins {
-				if succ(l, f) {
-					li, ok = i, true
-					break
+			for _, inter := range []bool{false, true} {
+				for i, l := range lins {
+					if !ok && succ(l, f, inter) {
+						li, ok = i, true
+					}
 				}
 			}
 		}
@@ -695,10 +710,11 @@ func c26Step1(t *testing.T, rec *kit.Rec, e *vEnv, c *c26Case, si int, step c26S
 			v := c26Judge(repokit.NewAudit(e.key, st), lins, before, step)
 			if len(v.Probs) > 0 {
 				key := "fault-" + mode
-				if v.Incomplete > 0 && v.Lost == 0 && c26FailedPackSave(fe.vbe.Journal()) {
-					// a pack upload failed, the command went on with further snapshots and stored a snapshot
-					// whose new tree blobs were only "pending" in the in-memory index (never uploaded)
-					key = "incomplete-after-failed-pack-upload"
+				if v.Incomplete > 0 && v.Lost == 0 && c26FailedUpload(fe.vbe.Journal()) {
+					// a pack or index upload failed, the command nevertheless went on with further snapshots
+					// on the same repository object and stored snapshots whose new tree blobs were only
+					// pending / in the unsaved in-memory index
+					key = "incomplete-after-failed-upload"
 				}
 				rec.Violation(key, fmt.Sprintf("%s %q with %s at mutation %d (command error: %v): %s; journal of the failing run: %s", step.Cmd, step.Arg, mode, k, ferr,
 					strings.Join(v.Probs, " | "), strings.Join(c26OpStrings(c26MutatingOps(fe.vbe.Journal()), 40), ", ")), d)
@@ -771,10 +787,10 @@ func c26MutatingOps(j []*kit.Op) []*kit.Op {
 	return out
 }
 
-// c26FailedPackSave reports whether some pack upload of the journal reported an error.
-func c26FailedPackSave(j []*kit.Op) bool {
+// c26FailedUpload reports whether some pack or index upload of the journal reported an error.
+func c26FailedUpload(j []*kit.Op) bool {
 	for _, op := range j {
-		if op.Kind == kit.OpSave && op.H.Type == backend.PackFile && op.Err != nil {
+		if op.Kind == kit.OpSave && (op.H.Type == backend.PackFile || op.H.Type == backend.IndexFile) && op.Err != nil {
 			return true
 		}
 	}
